@@ -491,6 +491,11 @@ def make_machine(col, stage, tier, checks, profile=None, max_conns=3, kinds=('me
         if 'deep' in kinds:
             @rule(data=st.data())
             def deep_reuse(self, data): self._step(data, 'deep')
+        if 'long_line' in kinds:
+            @rule(data=st.data())
+            def line_longer_than_4096_characters(self, data):
+                if Draw(data).chance(0.3):
+                    self._step(data, 'long_line')
 
         def teardown(self):
             if self.tr is None or self.reported or not self.case['specs']:
